@@ -67,9 +67,10 @@ def c_defaults(vs, names):
 ALL_OPS = ("validate", "get_versioned", "export", "mod_validate", "mod_export", "mod_create")
 
 
-def setup(vs, docs, names, vset, tag, ids=None, key_with_version=True, max_calls=4, mode="mc", ops=ALL_OPS):
+def setup(vs, docs, names, vset, tag, ids=None, key_with_version=True, max_calls=4, mode="mc", ops=ALL_OPS,
+          derive="fresh"):
     """cfg constants + the JSON data file read by spec/Validator.tla (Data); returns (constants, env)"""
-    names = sorted(set(names) | {"map"})
+    names = sorted(set(names) | ({"map"} if {"export", "mod_export"} & set(ops) or mode == "table" else set()))
     roots = sorted({d["root"] for d in docs})
     paths = c_paths(vs, sorted(set(names) | set(roots)), None)
     if ids is not None:
@@ -90,7 +91,7 @@ def setup(vs, docs, names, vset, tag, ids=None, key_with_version=True, max_calls
     with open(fn, "w") as f:
         json.dump(data, f)
     cst = {"Versions": set(vset), "Names": set(names), "KeyWithVersion": key_with_version, "MaxCalls": max_calls,
-           "Mode": mode, "Ops": set(ops)}
+           "Mode": mode, "Ops": set(ops), "Derive": derive}
     return cst, {"C09_DATA": fn}
 
 
@@ -109,18 +110,25 @@ def model_check(ck, vs, quick):
     if r.violated:
         ck.violation("C09|model|%s" % r.violated, "invariant %s violated in spec/Validator.tla" % r.violated,
                      {"trace": tlc.error_trace(r)})
-    # negative configs: the cache key without the version must be rejected
-    for inv in (["HistoryIndependent"] if quick else ["HistoryIndependent", "CacheSound"]):
+    # negative configs TLC must reject: the cache key without the version (the behaviour before the
+    # fix), and versioned cache entries that share their nested objects with the version-less entry
+    # (a shallow copy instead of a new expansion; needs three calls: version-less, A, then B / none)
+    negs = [("key without version", {"KeyWithVersion": False}, "HistoryIndependent"),
+            ("versioned entries alias the version-less one", {"Derive": "alias"}, "HistoryIndependent")]
+    if not quick:
+        negs += [("key without version", {"KeyWithVersion": False}, "CacheSound"),
+                 ("versioned entries alias the version-less one", {"Derive": "alias"}, "CacheSound")]
+    for i, (what, change, inv) in enumerate(negs):
         neg = dict(cst)
-        neg["KeyWithVersion"] = False
+        neg.update(change)
         neg["MaxCalls"] = 3
-        rn = tlc.run("Validator", tlc.cfg_text(constants=neg, invariants=[inv]), tag="c09_neg_" + inv, workers=4,
+        rn = tlc.run("Validator", tlc.cfg_text(constants=neg, invariants=[inv]), tag="c09_neg%d" % i, workers=4,
                      timeout=600, env=env)
         s = rn.summary()
         s["expected_violation"] = inv
-        ck.add_tlc("validator_negative(key without version; %s)" % inv, s)
+        ck.add_tlc("validator_negative(%s; %s)" % (what, inv), s)
         if rn.violated != inv:
-            raise MachineryFailure("negative config (cache key without version) was not rejected by TLC: %s" % rn.violated)
+            raise MachineryFailure("negative config (%s) was not rejected by TLC: %s" % (what, rn.violated))
     return r
 
 
@@ -293,19 +301,21 @@ def history_runs(ck, vs, vset, n, seed, tag, max_calls=5):
     return docs, hs[:n]
 
 
-def pair_histories(ck, vs, vset, tag, want, ops, names=("map", "layer")):
-    """every history of exactly two calls over a small representative set (exhaustive, not sampled):
-    two calls are the minimal witness of a cache-key / in-place-pruning leak"""
+def pair_histories(ck, vs, vset, tag, want, ops, names=("map", "layer"), length=2):
+    """every history of exactly `length` calls over a small representative set (exhaustive, not
+    sampled).  Two calls are the minimal witness of a cache-key / in-place-pruning leak; three calls
+    (version-less first, then version A, then version B or version-less again) are the minimal witness
+    of cache entries that share structure with one another"""
     docs = [d for d in vs.entry_docs(entry_ids={w.split("@")[0] for w in want}) if d["id"] in want]
     if len(docs) != len(want):
         raise MachineryFailure("representative documents missing: %s" % [d["id"] for d in docs])
-    cst, env = setup(vs, docs, list(names), vset, tag, max_calls=2, mode="all", ops=ops)
+    cst, env = setup(vs, docs, list(names), vset, tag, max_calls=length, mode="all", ops=ops)
     cfg = tlc.cfg_text(constants=cst, invariants=["Emit", "CacheSound", "HistoryIndependent"])
     r = tlc.run("Validator", cfg, tag=tag, workers=1, timeout=1800, env=env)
     ck.add_tlc(tag, r)
     if r.violated:
         raise MachineryFailure("Validator invariant %s violated" % r.violated)
-    return docs, [h for h in r.prints if isinstance(h, list) and len(h) == 2]
+    return docs, [h for h in r.prints if isinstance(h, list) and len(h) == length]
 
 
 class Replayer:
@@ -405,13 +415,25 @@ def replay_history(ck, rp, hist, origin):
                                  call_txt(c), subject, brief(alone), brief(exp)),
                              {"kind": "history", "history": [step], "step": 0, "origin": origin, "got": alone})
             continue
-        culprit = "several"
-        for j in range(i - 1, -1, -1):
+        culprit = None
+        for j in range(i - 1, -1, -1):          # one earlier call that suffices
             W = impl.Validator()
             rp.call(W, hist[j]["call"])
             if not rp.agrees(rp.call(W, c), exp):
                 culprit = call_txt(hist[j]["call"])
                 break
+        if culprit is None:                     # two earlier calls, in order
+            for j2 in range(i - 1, 0, -1):
+                for j1 in range(j2 - 1, -1, -1):
+                    W = impl.Validator()
+                    rp.call(W, hist[j1]["call"])
+                    rp.call(W, hist[j2]["call"])
+                    if not rp.agrees(rp.call(W, c), exp):
+                        culprit = "%s,%s" % (call_txt(hist[j1]["call"]), call_txt(hist[j2]["call"]))
+                        break
+                if culprit:
+                    break
+        culprit = culprit or "several"
         ck.violation("C09|history|answer-changed|%s->%s" % (culprit, call_txt(c)),
                      "%s on %s answers %s after %s; alone (and by the contract) %s" % (
                          call_txt(c), subject, brief(got), culprit, brief(exp)),
@@ -514,6 +536,7 @@ def run(tier):
     tmp = tempfile.mkdtemp(prefix="c09_")
     n_hist = 0
     n_pairs = 0
+    n_triples = 0
     steps = 0
     try:
         # schema objects and create() for every schema name x every version at / next to a bound
@@ -541,12 +564,24 @@ def run(tier):
             pdocs, ps = pair_histories(ck, vs, (50, 76, 77), "c09_pairs",
                                        ("layer.opacity@map/layers", "label.priority/anyOf/2@map/layers/classes/labels",
                                         "layer.utfdata@layer"), ALL_OPS)
-        rp = Replayer(vs, pdocs, tmp)
-        for h in ps:
-            replay_history(ck, rp, h, "all-pairs")
-            ck.nontrivial([(s["call"]["op"], s["call"].get("doc") or s["call"].get("name"), s["call"]["v"]) for s in h])
-            steps += len(h)
+        # every three-call history on a small schema (STYLE: cheap to expand and to walk): two documents
+        # whose entries are out of range below / above, two versions + none, validate + get_versioned
+        tdocs, ts = pair_histories(ck, vs, (59, 77), "c09_triples", ("style.gap@style", "style.antialias@style"),
+                                   ("validate", "get_versioned"), names=["style"], length=3)
+        batches = [(pdocs, ps, "all-pairs"), (tdocs, ts, "all-triples")]
+        if not quick:
+            t2docs, t2s = pair_histories(ck, vs, (76, 77), "c09_triples_map",
+                                         ("layer.opacity@map/layers", "layer.utfdata@layer"),
+                                         ("validate", "get_versioned"), names=["map", "layer"], length=3)
+            batches.append((t2docs, t2s, "all-triples-map"))
+        for bdocs, bs, origin in batches:
+            rp = Replayer(vs, bdocs, tmp)
+            for h in bs:
+                replay_history(ck, rp, h, origin)
+                ck.nontrivial([(s["call"]["op"], s["call"].get("doc") or s["call"].get("name"), s["call"]["v"]) for s in h])
+                steps += len(h)
         n_pairs = len(ps)
+        n_triples = sum(len(b[1]) for b in batches[1:])
     finally:
         shutil.rmtree(tmp, ignore_errors=True)
     ck.notes.append("histories %.1fs" % (time.time() - t0))
@@ -555,7 +590,7 @@ def run(tier):
                                "the comparison is void, run it again" % common.REPO)
     return ck.finish(exhaustive=False, coverage_extra={
         "annotated_entries": len(vs.entries), "probe_documents": len(docs), "fault_documents": len(faults),
-        "probe_rows": len(rows), "schema_rows": len(srows), "module_level_probes": n_mod, "histories": n_hist, "exhaustive_two_call_histories": n_pairs, "history_steps": steps,
+        "probe_rows": len(rows), "schema_rows": len(srows), "module_level_probes": n_mod, "histories": n_hist, "exhaustive_two_call_histories": n_pairs, "exhaustive_three_call_histories": n_triples, "history_steps": steps,
         "contexts_via_alternative": sum(1 for d in docs if d["via_alt"])})
 
 
